@@ -1,6 +1,6 @@
 (* C05: the effect-status decision and its use by the message helper. *)
 From Coq Require Import ZArith QArith List Bool Lia.
-From EosV Require Import lib.AList gen.T_eos model.World model.Status model.Engine model.Ops
+From EosV Require Import lib.AList gen.T_eos model.World model.Status model.Engine model.Ops model.Switches
      proofs.AList_p proofs.Frame_p.
 Import ListNotations.
 Open Scope Z_scope.
@@ -89,9 +89,6 @@ Proof. reflexivity. Qed.
 (* side effects (Booster) and abilities (FighterSquad) are switches built on
    the modes: an offline-category effect with a chance attribute reports
    exactly the status it was set to *)
-Definition side_effect_mode (status : bool) : Z :=
-  if status then EffectMode_state_compliance else EffectMode_full_compliance.
-
 Lemma side_effect_set_get status eid e df orun :
   effect_state e = Some State_offline -> e_chance_attr e <> None ->
   resolve_one State_offline (side_effect_mode status) eid e df orun = SOk status.
@@ -109,10 +106,6 @@ Qed.
 
 (* a fighter ability: non-default effects use state_compliance / full_compliance,
    the default effect uses full_compliance / force_stop (state override = active) *)
-Definition ability_mode (is_default status : bool) : Z :=
-  if is_default then (if status then EffectMode_full_compliance else EffectMode_force_stop)
-  else (if status then EffectMode_state_compliance else EffectMode_full_compliance).
-
 Lemma ability_set_get is_default status eid e orun :
   effect_state e = Some State_active ->
   resolve_one State_active (ability_mode is_default status) eid e is_default orun = SOk status.
